@@ -8,6 +8,12 @@ package main
 //	             pair per case clause, labels constant-folded where possible, body printed.
 //	stringLits   the string literals of a function body in source order (status strings and the like that
 //	             the code writes inline instead of naming them)
+//	signature    the parameters of a function in declaration order as (name, type) pairs, followed by one
+//	             ("", type) pair per result: which argument position a name used in the body refers to
+//	identUsers   every function of the package (non-test files) whose body mentions the identifier, sorted by
+//	             name, with the number of mentions; initialisers of package-level declarations count as
+//	             the pseudo-function "<package-level>".  Purely syntactic (a shadowing local counts too).
+//	             A name written ".m" counts the selector expressions x.m (method calls / values) instead.
 //	structFields the fields of a struct type in declaration order: (Go name, type, JSON name, omitempty)
 //	             following encoding/json's tag rules for the simple tags the repository uses.
 
@@ -15,6 +21,7 @@ import (
 	"fmt"
 	"go/ast"
 	"reflect"
+	"sort"
 	"strconv"
 	"strings"
 )
@@ -24,6 +31,8 @@ var funcSpecials = map[string]func(b *strings.Builder, sp specialSpec){
 	"switchCases":  emitSwitchCases,
 	"structFields": emitStructFields,
 	"stringLits":   emitStringLits,
+	"signature":    emitSignature,
+	"identUsers":   emitIdentUsers,
 }
 
 func specialFail(b *strings.Builder, sp specialSpec, why string) {
@@ -179,4 +188,106 @@ func emitStringLits(b *strings.Builder, sp specialSpec) {
 		return true
 	})
 	fmt.Fprintf(b, "/-- string literals of `%s` `%s` in source order -/\ndef %s : List String := [%s]\n\n", sp.dir, sp.name, sp.lean, strings.Join(parts, ", "))
+}
+
+func emitSignature(b *strings.Builder, sp specialSpec) {
+	p := loadPkg(sp.dir)
+	fd, ok := p.funcs[sp.name]
+	if !ok || fd.Type == nil {
+		specialFail(b, sp, "function not found")
+		return
+	}
+	var parts []string
+	if fd.Type.Params != nil {
+		for _, f := range fd.Type.Params.List {
+			if len(f.Names) == 0 {
+				specialFail(b, sp, "unnamed parameter")
+				return
+			}
+			for _, n := range f.Names {
+				parts = append(parts, fmt.Sprintf("(%s, %s)", leanStr(n.Name), leanStr(exprStr(p.fset, f.Type))))
+			}
+		}
+	}
+	if fd.Type.Results != nil {
+		for _, f := range fd.Type.Results.List {
+			k := len(f.Names)
+			if k == 0 {
+				k = 1
+			}
+			for i := 0; i < k; i++ {
+				parts = append(parts, fmt.Sprintf("(\"\", %s)", leanStr(exprStr(p.fset, f.Type))))
+			}
+		}
+	}
+	fmt.Fprintf(b, "/-- signature of `%s` `%s`: (parameter name, type) in order, then (\"\", type) per result -/\ndef %s : List (String × String) := [%s]\n\n",
+		sp.dir, sp.name, sp.lean, strings.Join(parts, ", "))
+}
+
+func emitIdentUsers(b *strings.Builder, sp specialSpec) {
+	p := loadPkg(sp.dir)
+	if len(p.files) == 0 {
+		specialFail(b, sp, "package not found")
+		return
+	}
+	counts := map[string]int{}
+	selName := strings.TrimPrefix(sp.name, ".") // ".m": mentions of the method / field m (x.m) instead of the identifier
+	var count func(fn string, n ast.Node)
+	count = func(fn string, n ast.Node) {
+		if n == nil {
+			return
+		}
+		ast.Inspect(n, func(n ast.Node) bool {
+			if sel, ok := n.(*ast.SelectorExpr); ok { // x.name is a field or method, not the identifier
+				if selName != sp.name && sel.Sel.Name == selName {
+					counts[fn]++
+				}
+				count(fn, sel.X)
+				return false
+			}
+			if kv, ok := n.(*ast.KeyValueExpr); ok { // a struct-literal key is a field name
+				if _, isId := kv.Key.(*ast.Ident); isId {
+					count(fn, kv.Value)
+					return false
+				}
+			}
+			if id, ok := n.(*ast.Ident); ok && id.Name == sp.name {
+				counts[fn]++
+			}
+			return true
+		})
+	}
+	for _, f := range p.files {
+		for _, d := range f.Decls {
+			switch d := d.(type) {
+			case *ast.FuncDecl:
+				name := d.Name.Name
+				if d.Recv != nil && len(d.Recv.List) == 1 {
+					name = recvName(d.Recv.List[0].Type) + "." + name
+				}
+				if d.Body != nil {
+					count(name, d.Body)
+				}
+			case *ast.GenDecl:
+				for _, s := range d.Specs {
+					if vs, ok := s.(*ast.ValueSpec); ok {
+						for _, v := range vs.Values {
+							count("<package-level>", v)
+						}
+					}
+				}
+			}
+		}
+	}
+	var names []string
+	for n := range counts {
+		names = append(names, n)
+	}
+	sort.Strings(names)
+	var parts []string
+	for _, n := range names {
+		parts = append(parts, fmt.Sprintf("(%s, %d)", leanStr(n), counts[n]))
+	}
+	fmt.Fprintf(b, "/-- functions of `%s` that mention the identifier `%s`: (function, number of mentions), sorted -/\ndef %s : List (String × Nat) := [%s]\n\n",
+		sp.dir, sp.name, sp.lean, strings.Join(parts, ", "))
 }
